@@ -51,12 +51,27 @@ func Int31n(n int32) int32 {
 	}
 	return src.Int31n(n)
 }
-func Int31() int32                       { return src.Int31() }
-func Int63() int64                       { return src.Int63() }
-func Int() int                           { return src.Int() }
-func Uint32() uint32                     { return src.Uint32() }
-func Uint64() uint64                     { return src.Uint64() }
-func Float64() float64                   { return src.Float64() }
+func Int31() int32   { return src.Int31() }
+func Int63() int64   { return src.Int63() }
+func Int() int       { return src.Int() }
+func Uint32() uint32 { return src.Uint32() }
+func Uint64() uint64 { return src.Uint64() }
+
+// FloatHook, when set, is asked first by Float64 (site = calling function).
+var FloatHook func(site string) (float64, bool)
+
+func Float64() float64 {
+	if FloatHook != nil {
+		if pc, _, _, ok := runtime.Caller(1); ok {
+			if f := runtime.FuncForPC(pc); f != nil {
+				if v, ok := FloatHook(f.Name()); ok {
+					return v
+				}
+			}
+		}
+	}
+	return src.Float64()
+}
 func Read(p []byte) (int, error)         { return src.Read(p) }
 func Perm(n int) []int                   { return src.Perm(n) }
 func Shuffle(n int, swap func(i, j int)) { src.Shuffle(n, swap) }
